@@ -641,7 +641,7 @@ def scan_cheats(text, allow):
     return found, unexpected
 
 
-def verify_unit(name, rlimit=20, do_canary=True, keep=True):
+def verify_unit(name, rlimit=20, do_canary=True, keep=True, stability_seeds=()):
     """Build + verify + canary. Returns a result dict; raises ExtractError for exit-2 situations."""
     tpl = os.path.join(VERIF, "units", "vx", name + ".rs.tpl")
     os.makedirs(BUILD, exist_ok=True)
@@ -656,6 +656,20 @@ def verify_unit(name, rlimit=20, do_canary=True, keep=True):
     cls = classify(unit, res, text)
     out = {"unit": name, "path": path, "items": unit.items, "exec_fns": unit.exec_fns, "cheats": cheats,
            "verus": {k: res[k] for k in ("cmd", "rc", "wall_s")}, "stderr": res["stderr"][-20000:], **cls}
+    # proof stability (thorough tier): the same unit under other SMT random seeds must verify as well; a function that verifies
+    # under one seed and not under another is a brittle proof -- reported as undecided, never as a violation
+    if stability_seeds and cls["status"] == "ok":
+        stab = []
+        for sd in stability_seeds:
+            r2 = run_verus(path, rlimit=rlimit, extra=["--smt-option", f"smt.random_seed={sd}"])
+            c2 = classify(unit, r2, text)
+            bad = sorted({f["fn"] or f.get("lemma") or "?" for f in c2["failures"] + c2["undecided"]})
+            stab.append({"seed": sd, "ok": c2["status"] == "ok", "wall_s": round(r2["wall_s"], 2), "not_verified": bad})
+            if c2["status"] != "ok":
+                for b_ in bad:
+                    out["undecided"].append({"msg": f"proof not stable: does not verify under smt.random_seed={sd}", "fn": b_, "lemma": None, "tags": [], "text": "", "line": None})
+                out["status"] = "undecided"
+        out["stability"] = stab
     if unit.skipped:
         for (ob, why) in unit.skipped:
             out["undecided"].append({"msg": why, "fn": ob, "lemma": None, "tags": [], "text": why, "line": None})
